@@ -478,7 +478,14 @@ func runChainCase(c ChainCase) (res kit.Result) {
 			time.Sleep(20 * time.Microsecond)
 		}
 	}
-	defer bc.Stop()
+	defer func() {
+		// a panic inside InsertChain unwinds with the chain's wait group still held: Stop would wait for ever
+		if r := recover(); r != nil {
+			go bc.Stop()
+			panic(r)
+		}
+		bc.Stop()
+	}()
 
 	labels := map[string]bool{}
 	nontrivial := false
